@@ -709,6 +709,9 @@ void Array<T>::alloc(int m)
 template<class T>
 void Array<T>::free()
 {
+#ifdef ASL_VERIF
+	asl_verif_point(3, &d().rc);
+#endif
 	asl_destroy(_a, d().n);
 	::free( (char*)_a - sizeof(Data) );
 	_a=0;
